@@ -121,11 +121,22 @@ def run(ctx):
         if why:
             fails.append((i, why))
     corr = common.diff_lines(ops + extra_ops, impl, model)
+    # the same algebra through the whole parser: calendars with several RRULE / RDATE / EXRULE / EXDATE lines against the set
+    # expression over the reference expansions of the single rules
+    from . import p_algebra
+    an, afails, ahist, aocc, ast = p_algebra.run(ctx, exe, rng, 2500 if ctx.tier == "thorough" else 350, True)
+    alg = {}
+    for op, why in afails:
+        alg[len(alg)] = op
+        fails.append((-len(alg), why))
     ctx.cov.update({
+        "calendars_through_whole_parser": an, "occurrences_compared_with_set_expression": aocc, "calendar_shapes": ahist,
         "evaluations": len(ops) + len(extra_ops),
         "distinct_nontrivial": len({o for o, c in zip(ops, cases) if c[2]}),
         "traces_validated_against_impl": len(ops) + len(extra_ops) - len(corr),
-        "rule": "events with 1..20 regularly spaced occurrences (gap 1..30 days; ms / second / all-day values; duration 0, "
+        "rule": "(a) calendars with 0-3 RRULEs, RDATE lists (repeats, several lines), 0-2 EXRULEs and EXDATE lists through the whole parser, "
+                "the first 60 occurrences against the set expression over the RFC reference expansions of the single rules; (b) stream "
+                "objects: events with 1..20 regularly spaced occurrences (gap 1..30 days; ms / second / all-day values; duration 0, "
                 "1 s, 1 h, half the gap, gap - 1 s) plus 0..4 RDATE-like additions (some equal to occurrences), filtered by "
                 "0..6 exceptions split over two exception sources: hits, runs of consecutive hits, near misses inside a "
                 "duration, before the first / after the last occurrence, same day with the other value type; peek/pop "
@@ -138,14 +149,18 @@ def run(ctx):
         "impl_vs_model_differences": len(corr),
         "exhaustive": False,
     })
-    ctx.assumptions += ["occurrence sources are sorted (C16) and the sort/parse path that produces the RDATE and EXDATE "
-                        "lists is C20/C05's matter; this check starts at the stream objects"]
+    ctx.assumptions += ["occurrence sources are sorted (C16); the single rules' instances are those of vlib/rfc5545.py (C01)"]
     if st != "ok" and not fails and not corr:
         ctx.violation("correspondence", "harness ended with %s: %s" % (st, err[-600:]), {"stderr": err}, found_input=False)
     if fails:
         i, why = fails[0]
-        ctx.violation("property", why, {"op": ops[i], "impl": impl[i] if i < len(impl) else None, "model": model[i],
-                                        "failures_total": len(fails)})
+        if i < 0:
+            aop = alg[-i - 1]
+            aout, _, _ = ctx.impl(exe, [aop])
+            ctx.violation("property", why, {"op": aop, "impl": aout[0] if aout else None, "failures_total": len(fails)})
+        else:
+            ctx.violation("property", why, {"op": ops[i], "impl": impl[i] if i < len(impl) else None, "model": model[i],
+                                            "failures_total": len(fails)})
     elif corr:
         i, op, a, b = corr[0]
         ctx.violation("correspondence", "implementation and model differ on %d scripts, the set algebra holds; first: %s"
@@ -160,5 +175,5 @@ def replay(ctx, rep):
         print("replay names no input: %s" % rep.get("what"))
         return 1
     out, st, _ = ctx.impl(exe, [op])
-    print("op: %s\nimpl: %s\nmodel: %s\nwas: %s" % (op, out[0] if out else st, ctx.model([op])[0], rep.get("what")))
+    print("op: %s\nimpl: %s\nmodel: %s\nwas: %s" % (op[:300], out[0] if out else st, "-" if op.startswith("p.occ") else ctx.model([op])[0], rep.get("what")))
     return 1 if (out and out[0] == rep["data"].get("impl")) else 0
